@@ -39,7 +39,7 @@ def markers(fi, i, j, mi, mj, salt):
     return []
 
 
-def build(shape, opts, cfg, mode='v'):
+def build(shape, opts, cfg, mode='v', noise=None):
     """opts[vi] = (i, j, mi, mj); cfg: 'D' Deref only, 'DM' both educed, 'M' DerefMut educed + hand Deref"""
     with_mut = cfg != 'D'
     lt = mode != 'v'
@@ -62,9 +62,16 @@ def build(shape, opts, cfg, mode='v'):
                 a.append(['#[educe(DerefMut)]'] if (fi == j and mj) else [])
             else:
                 a.append(markers(fi, i, j, mi, mj, salt))
+            if noise and noise != 'phantom' and not a[-1]:
+                # attributes of other kinds on the fields that are not designated
+                a[-1] = {'doc': ['/// a documented field'], 'allow': ['#[allow(unused)]'], 'educe': ['#[educe(Debug(ignore))]'], 'cfg': ['#[cfg(all())]']}[noise]
+            if noise == 'phantom' and fi != i and fi != j and fi % 2 == 0:
+                t[-1] = 'std::marker::PhantomData<u64>'
         tys.append(t)
         fattrs.append(a)
     traits = {'D': 'Deref', 'DM': 'Deref, DerefMut' if salt % 2 else 'DerefMut, Deref', 'M': 'DerefMut'}[cfg]
+    if noise == 'educe':
+        traits += ', Debug'
     gen = "<'a>" if lt else ''
     src = S.render_type(shape, ['#[educe(%s)]' % traits], tys, fattrs, generics=gen, derives='Educe')
     tyn = "Ty<'a>" if lt else 'Ty'
@@ -91,6 +98,8 @@ def build(shape, opts, cfg, mode='v'):
             elif k == i and mode == 'm':
                 pre += '        let mut t%d = V(%d);\n' % (k, sent[k])
                 ex.append('&mut t%d' % k)
+            elif tys[vi][k].startswith('std::marker::PhantomData'):
+                ex.append('std::marker::PhantomData')
             else:
                 ex.append('V(%d)' % sent[k])
         binds = ['a%d' % k for k in range(f.n)]
@@ -104,7 +113,7 @@ def build(shape, opts, cfg, mode='v'):
             return 'a%d as *const V' % k
 
         def val(k):
-            return 'a%d.0' % k
+            return '0' if tys[vi][k].startswith('std::marker::PhantomData') else 'a%d.0' % k
         body += '    {\n%s        let %sx = %s;\n' % (pre, 'mut ' if with_mut else '', S.ctor(shape, vi, ex))
         body += '        let want: *const V = match &x { %s => %s%s };\n' % (pat, addr(i), other)
         body += '        let got: *const V = &*x as *const V;\n'
@@ -114,13 +123,13 @@ def build(shape, opts, cfg, mode='v'):
             body += '        let gotm: *const V = (&mut *x) as *mut V as *const V;\n'
             body += '        r.ck(gotm == wantm, 1, &|| format!("variant %d: &mut *x is at {:?} but the DerefMut field %d is at {:?}", gotm, wantm));\n' % (vi, j)
             body += '        *x = V(99);\n'
-            exp = ', '.join('99' if k == j else str(sent[k]) for k in range(f.n))
+            exp = ', '.join('99' if k == j else ('0' if tys[vi][k].startswith('std::marker::PhantomData') else str(sent[k])) for k in range(f.n))
             body += '        let now: Vec<u8> = match &x { %s => vec![%s]%s };\n' % (pat, ', '.join(val(k) for k in range(f.n)), other)
             body += '        r.ck(now == vec![%s], 2, &|| format!("variant %d: after *x = V(99) the fields are {:?}, expected [%s]", now));\n' % (exp, vi, exp)
         body += '    }\n'
     src += 'pub fn check(r: &mut Rep) {\n%s}\n' % body
     okey = ';'.join('%s/%s%s%s' % (o[0], '-' if o[1] is None else o[1], 'D' if o[2] else '', 'M' if o[3] else '') for o in opts)
-    key = 'C09|%s|%s|%s|%s' % (cfg, mode, shape.code(), okey)
+    key = 'C09|%s|%s|%s|%s%s' % (cfg, mode, shape.code(), okey, '|' + noise if noise else '')
     depth = sum(1 for o in opts if o[2]) + sum(1 for o in opts if o[3]) + (mode != 'v') + (cfg != 'D')
     return Case(key, src, {'cfg': cfg, 'mode': mode, 'shape': shape.code(), 'designation': okey}, expect='accept', run=True, depth=depth)
 
@@ -144,6 +153,23 @@ def generate(tier):
                         if cfg == 'M' and not o[3] and fl.n > 1:
                             continue
                         cases.append(build(sh, [o], cfg, mode))
+        # very wide (12 fields): markers at positions 0, 1, 9, 10, 11
+        for fl in (S.Fields('t', 12), S.Fields('n', 12)):
+            for i_ in (0, 1, 9, 10, 11):
+                for j_ in ((0, 10, 11) if with_mut else (None,)):
+                    o = (i_, j_, True, with_mut and j_ is not None)
+                    if cfg == 'M' and not o[3]:
+                        continue
+                    cases.append(build(S.Shape('struct', [fl]), [o], cfg, 'v'))
+                    if cfg != 'M':
+                        cases.append(build(S.Shape('enum', [S.Fields('t', 1), fl]), [(0, 0 if with_mut else None, False, False), o], cfg, 'v'))
+        # other attributes / PhantomData on the non-designated fields
+        if cfg != 'M':
+            for fl in (S.Fields('t', 3), S.Fields('t', 4), S.Fields('n', 3)):
+                for o in variant_options(fl, with_mut):
+                    for noise in ('doc', 'allow', 'educe', 'cfg', 'phantom'):
+                        cases.append(build(S.Shape('struct', [fl]), [o], cfg, 'v', noise=noise))
+                        cases.append(build(S.Shape('enum', [S.Fields('t', 1), fl]), [(0, 0 if with_mut else None, False, False), o], cfg, 'v', noise=noise))
         # wide: 5-6 fields, and a 5-variant enum in which one variant's markers move through every position
         for fl in (S.Fields('t', 5), S.Fields('n', 6)):
             for o in variant_options(fl, with_mut):
